@@ -24,7 +24,9 @@ def r_qty(t):
         last = name + ("<" + ", ".join(r_qty(a) for a in args) + ">" if angle else "")
         return "::".join(list(segs) + [last])
     if k == "ref":
-        return "&" + r_qty(t[1])
+        return (t[2] if len(t) > 2 else "&") + r_qty(t[1])     # optional spelling of the reference: "&mut ", "&'a "
+    if k == "opaque":
+        return t[1]                                            # impl Trait / dyn Trait / lifetime argument: Rust text
     if k == "tuple":
         ts = t[1]
         if not ts:
@@ -122,7 +124,7 @@ def r_fn(f):
     body = "\n    ".join(r_stmt(s) for s in f["body"])
     attrs = "".join(a + "\n" for a in f.get("attrs", []))
     sig = " ".join(x for x in (f.get("vis"), f.get("quals"), "fn") if x)
-    ret = (" -> " + f["ret"]) if f.get("ret") else ""
+    ret = ((" -> " + f["ret"]) if f.get("ret") else "") + ((" where " + f["where"]) if f.get("where") else "")
     head = (attrs + ("#[tauri::command]\n" if f.get("cmd") else "") +
             "%s %s%s(%s)%s {\n    %s\n}\n" % (sig, f["name"], f.get("generics", ""), ", ".join(ps), ret, body))
     if f.get("wrap") == "impl":
@@ -141,7 +143,12 @@ def has_command(case):
 
 
 # ------------------------------------------------------------------ s-expression for the model
+OPAQUE_Q = ["tuple", [["path", [], "Opaque", False, []]]]   # the model's stand-in for a type extract_type_name calls `unknown`
+
+
 def m_qty(t):
+    if t[0] == "opaque":
+        return OPAQUE_Q
     if t[0] == "path":
         return ["path", list(t[1]), t[2], bool(t[3]), [m_qty(a) for a in t[4]]]
     if t[0] == "ref":
@@ -201,6 +208,8 @@ def m_pat(p):
 
 
 def m_qty_q(t):
+    if t[0] == "opaque":       # impl Trait, dyn Trait, lifetimes: neither reference nor path -> `unknown`, as a non-empty tuple in the model
+        return ["tuple", [["path", [], S("Opaque"), False, []]]]
     if t[0] == "path":
         return ["path", [S(x) for x in t[1]], S(t[2]), bool(t[3]), [m_qty_q(a) for a in t[4]]]
     if t[0] == "ref":
@@ -829,6 +838,161 @@ def enum_raw_idents():
                     c = single(body, zod=(i % 3 == 0), params=params)
                     c["files"][0]["fns"][0]["name"] = RAW_NAMES[i % len(RAW_NAMES)] if i % 2 else "work"
                     cases.append(c)
+    return cases
+
+
+
+# ------------------------------------------------------------------ declared type of the emitting receiver (round 7)
+def OQ(text):
+    return ["opaque", text]
+
+
+def handle_decls(h):
+    """how the variable h that the emit is called on got its (declared / inferred / absent) type: name -> fn fields
+    {params, pre (leading statements), generics, where}. The tool's receiver test looks at the NAME only; whatever
+    the symbol table records for h (last path segment, first segment of an associated call, a copied entry,
+    `unknown`, nothing) must not change which emits count."""
+    T = TY
+
+    def Pm(t, **kw):
+        return dict({"params": [[h, None, t]], "pre": []}, **kw)
+
+    def Lt(pre, params=(), **kw):
+        return dict({"params": [list(q) for q in params], "pre": pre}, **kw)
+
+    let = lambda init, mut=False: ["let", ["ident", h, mut], init]
+    tlet = lambda t, init=None: ["let", ["typed", h, t], init if init is not None else ["call", V("make"), []]]
+    src = lambda t: [["src", None, t]]
+    return {
+        # the handle types themselves, plain / referenced / qualified / with a runtime parameter
+        "AppHandle": Pm(T("AppHandle")), "&AppHandle": Pm(["ref", T("AppHandle")]),
+        "tauri::AppHandle<R>": Pm(T("AppHandle", T("R"), segs=["tauri"]), generics="<R: tauri::Runtime>"),
+        "&tauri::Window": Pm(["ref", WIN_T]), "&mut WebviewWindow": Pm(["ref", T("WebviewWindow"), "&mut "]),
+        "tauri::Webview": Pm(T("Webview", segs=["tauri"])), "&mut tauri::App": Pm(["ref", T("App", segs=["tauri"]), "&mut "]),
+        "&'static AppHandle": Pm(["ref", T("AppHandle"), "&'static "]),
+        # generic parameters and trait objects
+        "&E, E: Emitter<R>": Pm(["ref", T("E")], generics="<R: Runtime, E: Emitter<R>>"),
+        "H where H: Emitter": Pm(T("H"), generics="<H>", where="H: Emitter"),
+        "&'a T": Pm(["ref", T("T"), "&'a "], generics="<'a, T: Emitter + Sync>"),
+        "M: Manager": Pm(["ref", T("M")], generics="<R: Runtime, M: Manager<R> + Emitter<R>>"),
+        "impl Emitter": Pm(OQ("impl Emitter")), "&impl Emitter<R>": Pm(["ref", OQ("impl Emitter<R>")], generics="<R: Runtime>"),
+        "&dyn Emitter": Pm(["ref", OQ("dyn Emitter")]), "&mut dyn Emitter": Pm(["ref", OQ("dyn Emitter"), "&mut "]),
+        # wrappers
+        "Arc<tauri::WebviewWindow>": Pm(T("Arc", WV_T)), "std::sync::Arc<AppHandle>": Pm(T("Arc", T("AppHandle"), segs=["std", "sync"])),
+        "Box<dyn Emitter>": Pm(T("Box", OQ("dyn Emitter"))), "Rc<Window>": Pm(T("Rc", T("Window"))), "&Arc<AppHandle>": Pm(["ref", T("Arc", T("AppHandle"))]),
+        "tauri::State<'_, AppHandle>": Pm(T("State", OQ("'_"), T("AppHandle"), segs=["tauri"])),
+        "MutexGuard<'_, Window>": Pm(T("MutexGuard", OQ("'_"), T("Window"))), "Option<AppHandle>": Pm(T("Option", T("AppHandle"))),
+        "Cow<'_, AppHandle>": Pm(T("Cow", OQ("'_"), T("AppHandle"))),
+        # other names: alias-like, application types, qualified
+        "AppRef": Pm(T("AppRef")), "Win": Pm(["ref", T("Win")]), "SharedApp": Pm(T("SharedApp")), "Handle": Pm(T("Handle")),
+        "crate::handles::MainWindow": Pm(T("MainWindow", segs=["crate", "handles"])), "window::Handle": Pm(["ref", T("Handle", segs=["window"])]),
+        "AppState": Pm(T("AppState")), "WindowConfig": Pm(["ref", T("WindowConfig")]), "Self": Pm(T("Self")),
+        "tuple": Pm(["tuple", [T("AppHandle"), T("u32")]]), "unknown (a type of that name)": Pm(T("unknown")),
+        # let-bound handles: what infer_type_from_init makes of the initialiser
+        "let = tauri::Builder::default()": Lt([let(["call", P("tauri", "Builder", "default"), []])]),
+        "let = AppHandle::clone(&src)": Lt([let(["call", P("AppHandle", "clone"), [["ref", V("src")]]])], src(APP_T)),
+        "let = Wrapper::new(src)": Lt([let(["call", P("Wrapper", "new"), [V("src")]], True)], src(APP_T)),
+        "let = MainWindow { .. }": Lt([let(["struct", ["MainWindow"]])]), "let = &ui::Shell { .. }": Lt([let(["ref", ["struct", ["ui", "Shell"]]])]),
+        "let = src (src: Handle)": Lt([let(V("src"))], src(T("Handle"))), "let = &src (src: &E)": Lt([let(["ref", V("src")])], src(["ref", T("E")]), generics="<E: Emitter>"),
+        "let = src (src: impl Emitter)": Lt([let(V("src"))], src(OQ("impl Emitter"))),
+        "let = src.clone()": Lt([let(M(V("src"), "clone"), True)], src(T("Handle"))), "let = build()": Lt([let(["call", V("build"), []])]),
+        "let = src.get_webview_window().unwrap()": Lt([let(M(M(V("src"), "get_webview_window", SL("main")), "unwrap"))], src(APP_T)),
+        "let: MyHandle": Lt([tlet(T("MyHandle"))]), "let: Arc<AppHandle>": Lt([tlet(T("Arc", T("AppHandle")))]),
+        "let: &E = src": Lt([tlet(["ref", T("E")], V("src"))], src(["ref", T("E")]), generics="<E: Emitter>"),
+        "let: impl-like opaque": Lt([tlet(["ref", OQ("dyn Emitter")])]), "let: tauri::WebviewWindow": Lt([tlet(WV_T)]),
+        "let without init": Lt([["let", ["typed", h, T("Proxy")], None], ["other", "%s = make();" % h]]),
+        # shadowing and leaking entries
+        "param shadowed by Wrapper::new": Lt([let(["call", P("Wrapper", "new"), [V(h)]])], [[h, None, APP_T]]),
+        "typed non-handle param shadowed opaquely": Lt([let(["call", V("make"), []])], [[h, None, T("Cfg")]]),
+        "block-local typed let leaks": Lt([["expr", ["block", [["let", ["typed", h, T("Inner")], ["call", V("make"), []]]]]]], [[h, None, APP_T]]),
+        "re-typed twice": Lt([tlet(T("First")), tlet(["ref", T("Second")])]),
+    }
+
+
+def enum_receiver_types():
+    """declared TYPE of the emitting receiver x receiver name x receiver form x emit / emit_to x rotating placement and payload;
+    non-handle names with the same declarations must still not count"""
+    cases = []
+    i = 0
+    pays = [["struct", ["Heartbeat"]], V("user"), ["lit", "int"], ["ref", V("user")]]
+    for h in ("app", "window", "webview", "emitter"):
+        decls = handle_decls(h)
+        for dn in decls:
+            d = decls[dn]
+            for recv in ([V(h)] if h == "emitter" else [V(h), M(V(h), "clone")]):
+                for to in ((False,) if (h == "emitter" or recv[0] == "method") else (False, True)):
+                    i += 1
+                    pay = pays[i % len(pays)]
+                    e = EMIT_TO(recv, "typed-recv", pay) if to else EMIT(recv, "typed-recv", pay)
+                    pl = list(placements(e).values())
+                    fn = {"name": "report", "cmd": False, "wrap": None, "params": [list(q) for q in d["params"]] + [["user", None, TY("User")]],
+                          "body": list(d["pre"]) + pl[i % len(pl)], "generics": d.get("generics", ""), "where": d.get("where"),
+                          "vis": "pub" if i % 2 else None, "quals": "async" if i % 5 == 0 else None}
+                    cases.append({"files": [{"name": "src/lib.rs", "fns": [fn, command_fn(0)]}], "zod": i % 6 == 0})
+    cases.append(seed_generic_handles())
+    return cases
+
+
+def seed_generic_handles():
+    """the round-7 demonstration project: one command with a plain AppHandle, helpers generic over the emitter, an Arc-wrapped
+    window, a handle taken from a builder call - four events, four listeners"""
+    fn = lambda name, params, body, **kw: dict({"name": name, "cmd": False, "wrap": None, "params": params, "body": body, "vis": "pub"}, **kw)
+    start = fn("start", [["app", None, TY("AppHandle")], ["total", None, TY("u32")]],
+               [["expr", M(EMIT(V("app"), "job-started", V("total")), "ok")], ["expr", ["call", V("report"), [["ref", V("app")], ["struct", ["Progress"]]]]]], cmd=True)
+    report = fn("report", [["app", None, ["ref", TY("E")]], ["progress", None, TY("Progress")]],
+                [["expr", M(EMIT(V("app"), "job-progress", V("progress")), "ok")]], generics="<R: Runtime, E: Emitter<R>>")
+    finish = fn("finish", [["window", None, TY("Arc", WV_T)], ["done", None, TY("u32")]], [["expr", M(EMIT_TO(V("window"), "job-finished", V("done")), "ok")]])
+    announce = fn("announce", [["webview", None, TY("H")]], [["let", ["other", "_"], EMIT(V("webview"), "job:announced", ["lit", "bool"])]], generics="<H>", where="H: Emitter")
+    boot = fn("boot", [], [["let", ["ident", "app", False], ["call", P("tauri", "Builder", "default"), []]], ["expr", ["try", EMIT(V("app"), "job-booted", ["tuple", []])]]],
+              ret="tauri::Result<()>")
+    return {"files": [{"name": "src/lib.rs", "fns": [start, report, finish, announce, boot]}], "zod": False}
+
+
+# ------------------------------------------------------------------ event names beyond ASCII (round 7)
+UNI_CLASSES = {
+    # ECMAScript identifier letters of the scripts listed in Spec/C01Wf.v (a tool that kept them would print legal identifiers)
+    "letter": ["é", "ß", "Ø", "Ω", "λ", "ж", "Ж", "更", "新", "か", "カ", "한", "ا", "क", "Ⅻ"],
+    # letters with special case mappings (PascalCase would change their length or pick a title-case form)
+    "letter-casing": ["ǆ", "ŉ", "ı", "İ", "ſ", "ﬁ"],
+    # letters of scripts outside the explicit table of the spec (dropped by the tool today)
+    "letter-other-script": ["ก", "א", "ა"],
+    # Alphabetic for Rust, not ID_Continue for ECMAScript: circled / parenthesised / squared letters
+    "enclosed": ["Ⓐ", "Ⓩ", "ⓐ", "ⓩ", "⒜", "\U0001f130", "\U0001f150", "\U0001f170", "\U0001f189", "①", "⑴", "㊀", "㋐"],
+    "symbol": ["→", "★", "©", "€", "°", "✓", "♥", "\U0001f680", "∞", "×", "™"],
+    "digit": ["٣", "३", "３", "৩", "²", "½", "₂", "Ⅷ"],
+    "mark": ["é", "́", "a⃝", "̈", "‍", "‌", "ि", "️"],
+    "punct-space": [" ", "«", "…", "・", "‿", "·", "　", "—", "－", "＿"],
+}
+UNI_TEMPLATES = ["grade-%s-awarded", "%s", "%s-ready", "item-%s", "grade%sawarded", "a_%s_b", "%s%s", "ns:%s/evt", "X%s", "job-%s9"]
+
+
+def enum_unicode_names():
+    """event names with non-ASCII characters of several Unicode classes at the start / between separators / inside a word / at the end /
+    alone / doubled. Outside the theorem's name alphabet: the cases are judged by the oracle alone (one listener, subscribed to
+    exactly that name, legal identifier incl. the ECMAScript code-point table of Spec/C12Uni.v) and by the correspondence."""
+    cases = []
+    i = 0
+    recvs = [V("app"), V("window"), M(V("app"), "handle"), ["field", V("state"), "webview"]]
+    for cls in sorted(UNI_CLASSES):
+        for ch in UNI_CLASSES[cls]:
+            for k, tpl in enumerate(UNI_TEMPLATES):
+                if (k + i) % (2 if cls in ("enclosed", "letter") else 3):      # the two classes a naming change is most likely to split: all templates
+                    continue
+                i += 1
+                n = tpl % ((ch,) * tpl.count("%s"))
+                r = recvs[i % len(recvs)]
+                e = EMIT_TO(r, n, ["lit", "int"]) if i % 4 == 0 else EMIT(r, n, ["struct", ["Heartbeat"]])
+                cases.append(single([["expr", M(e, "ok")]], zod=(i % 5 == 0)))
+    two = lambda m, n: single([["expr", M(EMIT(V("app"), m, ["lit", "int"]), "ok")], ["expr", M(EMIT(V("window"), n, SL("s")), "ok")]])
+    # several names in one module: distinct ASCII parts (no collision), and names that differ only outside ASCII (inside kf_collision)
+    cases.append(two("grade-Ⓐ-awarded", "grade-Ⓑ-revoked"))
+    cases.append(two("更新-done", "完了-started"))
+    cases.append(two("café-open", "cafe-closed"))
+    cases.append(two("更新", "完了"))
+    cases.append(two("a-Ⓐ", "a-Ⓑ"))
+    cases.append(two("gré", "grè"))
+    cases.append(single([["expr", M(EMIT(V("app"), "grade-Ⓐ-awarded", ["lit", "int"]), "ok")], ["expr", M(EMIT(V("app"), "更新", ["lit", "int"]), "ok")],
+                         ["expr", M(EMIT_TO(V("webview"), "gréé-changed", ["struct", ["User"]]), "ok")]]))
     return cases
 
 
